@@ -117,7 +117,7 @@ func c10Operations(p *Prog, f *ssa.Function) []*ssa.Function {
 	}
 	callers := map[*ssa.Function][]*ssa.Function{}
 	for g := range p.All {
-		if fnPkgPath(g) != fnPkgPath(f) || len(g.Blocks) == 0 || (g.Synthetic != "" && !strings.HasPrefix(g.Synthetic, "instance of")) {
+		if fnPkgPath(g) != fnPkgPath(f) || len(g.Blocks) == 0 || !c09IsSourceFn(g) {
 			continue
 		}
 		AllInstrs(g, func(in ssa.Instruction) {
@@ -170,7 +170,7 @@ func c10Operations(p *Prog, f *ssa.Function) []*ssa.Function {
 func c10R1(c *Ctx) {
 	const R1 = "C10.R1.fs-effect-inventory"
 	c.Expect(R1, 18)
-	fns := c.P.FuncsOfPkg(c08Pkg)
+	fns := c09FuncsOfPkg(c.P, c08Pkg)
 	if len(fns) == 0 {
 		c.LostAnchor(R1, "package ~/content/oci")
 		return
@@ -312,32 +312,39 @@ func c10R2(c *Ctx) {
 		return
 	}
 	n := 0
-	for _, f := range c.P.FuncsOfPkg(c08Pkg) {
+	for _, f := range c09FuncsOfPkg(c.P, c08Pkg) {
 		for _, call := range Calls(f, func(name string) bool { return c08InPlaceWriters[name] }) {
 			args := call.Common().Args
 			if len(args) == 0 {
 				continue
 			}
-			// the path may be a parameter of an unexported helper: judged by what is passed in
-			file := ""
-			if os, okO := c09Origins(c.P, args[0], 2, nil); okO && len(os) > 0 {
-				for i, o := range os {
-					fo := c10ReadBackFile(r, o)
-					if i > 0 && fo != file {
-						fo = ""
-					}
-					file = fo
-					if file == "" {
-						break
+			// where the written path is known: here, or — when it is a parameter of an unexported helper
+			// (writeJSONFile(path, …)) — at each place the helper is entered from, judged separately
+			type wsite struct {
+				at   ssa.Instruction
+				path ssa.Value
+				file string
+			}
+			var wsites []wsite
+			var expand func(at ssa.Instruction, pv ssa.Value, depth int)
+			expand = func(at ssa.Instruction, pv ssa.Value, depth int) {
+				if file := c10ReadBackFile(r, pv); file != "" {
+					wsites = append(wsites, wsite{at, pv, file})
+					return
+				}
+				pf, _ := c09ParamOf(pv)
+				if pf == nil || pf != at.Parent() || depth <= 0 {
+					return
+				}
+				if sites, closed := c09SitesOf(c.P, pf); closed {
+					for _, cs := range sites {
+						if w := cs.Tr(pv); w != nil {
+							expand(cs.At, w, depth-1)
+						}
 					}
 				}
 			}
-			if file == "" {
-				continue
-			}
-			n++
-			key := file + "|" + CalleeName(call) // keyed by the file role and the callee, not by the function that hosts the call
-			// creation: reached only when opening the same path reported "not exist" (here or before every call of the helper)
+			expand(call.(ssa.Instruction), args[0], 2)
 			absentEdges := func(fn *ssa.Function, v c09Vals) []Edge {
 				if v["path"] == nil {
 					return nil
@@ -361,13 +368,19 @@ func c10R2(c *Ctx) {
 				}
 				return absent
 			}
-			if c09GuardedUp(c.P, call.(ssa.Instruction), c09Vals{"path": args[0]}, absentEdges, 2) {
-				c.OK(R2, key, call.Pos(), file+" is written here only when it did not exist (creation, not replacement)")
-				continue
+			for _, ws := range wsites {
+				n++
+				file := ws.file
+				key := file + "|" + CalleeName(call) // keyed by the file role and the callee, not by the function that hosts the call
+				// creation: reached only when opening the same path reported "not exist"
+				if c09GuardedUp(c.P, ws.at, c09Vals{"path": ws.path}, absentEdges, 2) {
+					c.OK(R2, key, call.Pos(), file+" is written here only when it did not exist (creation, not replacement)")
+					continue
+				}
+				c.Violation(R2, key, call.Pos(), file+" already exists and is read back by oci.New, but is rewritten in place with "+CalleeName(call)+
+					" (open-truncate, then write): a process killed between the two system calls leaves an empty or partial "+file+" and oci.New fails to open the layout. "+
+					"Replace by writing a sibling temporary file and os.Rename over the target")
 			}
-			c.Violation(R2, key, call.Pos(), file+" already exists and is read back by oci.New, but is rewritten in place with "+CalleeName(call)+
-				" (open-truncate, then write): a process killed between the two system calls leaves an empty or partial "+file+" and oci.New fails to open the layout. "+
-				"Replace by writing a sibling temporary file and os.Rename over the target")
 		}
 		// a read-back file is never removed (there is no window without it)
 		for _, call := range Calls(f, func(nm string) bool { return nm == "os.Remove" || nm == "os.RemoveAll" }) {
@@ -464,7 +477,7 @@ func c10R3StoragePush(c *Ctx, R3 string) {
 		for _, dv := range dsts {
 			hit := false
 			AllInstrs(push, func(in ssa.Instruction) {
-				if call, isCall := in.(*ssa.Call); isCall && len(call.Call.Args) == 1 && exp.fieldOf(call.Call.Args[0], "Digest") && c09Uses(dv, call, 0) {
+				if call, isCall := in.(*ssa.Call); isCall && len(call.Call.Args) == 1 && (exp.fieldOf(call.Call.Args[0], "Digest") || exp.vals[call.Call.Args[0]]) && c09Uses(dv, call, 0) {
 					hit = true
 				}
 			})
@@ -667,7 +680,10 @@ func c10R3DeleteGC(c *Ctx, R3 string, r *c08Roles) {
 	var sites []site
 	// helpers that change the tag map and save it themselves before returning nil
 	clean := map[*ssa.Function]bool{}
-	for _, f := range c.P.FuncsOfPkg(c08Pkg) {
+	for _, f := range c09FuncsOfPkg(c.P, c08Pkg) {
+		if c09IsYieldBody(f) {
+			continue
+		}
 		if len(c08Mutations(f, r)) > 0 && !r.dirty[f] && !r.savers[f] {
 			clean[f] = true
 		}
@@ -702,8 +718,8 @@ func c10R3DeleteGC(c *Ctx, R3 string, r *c08Roles) {
 		}
 		return false
 	}
-	for _, f := range c.P.FuncsOfPkg(c08Pkg) {
-		if ms, _ := mutationsOf(f); len(ms) == 0 {
+	for _, f := range c09FuncsOfPkg(c.P, c08Pkg) {
+		if ms, _ := mutationsOf(f); len(ms) == 0 || c09IsYieldBody(f) {
 			continue
 		}
 		var rm []ssa.Instruction
